@@ -13,6 +13,9 @@
  *   cmap is16 count v...                               (no output)
  *   recmap ready is16 count v...  (screen->colourMap changed, then rfbSetClientColourMap(cl,0,0))
  *              -> recmap ret=1 tbl=<bytes> tsum=<fnv64>
+ *   setupmsg be_byte tc_byte      like setup, but cf is delivered by a real SetPixelFormat message whose
+ *                                 bigEndian / trueColour bytes are the given raw values
+ *   newfb bps spp bytespp         rfbNewFramebuffer(...) -> newfb sf=<10 ints> client ok=1 fn=.. cf=.. msg=.. tbl=.. tsum=..
  *   setup      -> setup ok=1 fn=none|table cf=<10 ints> msg=<hex|-> tbl=<bytes|-> tsum=<fnv64|->
  *                 setup ok=0 | setup crash
  *   xlate stride w h <hex input, buffer ends at the guard>
@@ -77,14 +80,18 @@ static void new_client(void) {
   if (peer >= 0) { close(peer); peer = -1; }
   cl = vs_connect_raw(screen, &peer);
   if (!cl) { fprintf(stderr, "cannot create client\n"); exit(2); }
-  pbuf.n = pbuf.rd = 0; vs_drain(peer, &pbuf); pbuf.n = pbuf.rd = 0;
+  pbuf.n = pbuf.rd = 0;
+  /* complete the RFB handshake so that real client messages (SetPixelFormat) can be delivered */
+  if (vs_handshake_none(screen, peer, &pbuf, 1) != 0) { fprintf(stderr, "handshake failed\n"); exit(2); }
+  vs_drain(peer, &pbuf); pbuf.n = pbuf.rd = 0;
 }
 
 static void parse_fmt(const char *s, rfbPixelFormat *f) {
   int a[10];
   memset(f, 0, sizeof *f);
   if (sscanf(s, "%d %d %d %d %d %d %d %d %d %d", &a[0], &a[1], &a[2], &a[3], &a[4], &a[5], &a[6], &a[7], &a[8], &a[9]) != 10) return;
-  f->bitsPerPixel = a[0]; f->depth = a[1]; f->bigEndian = a[2]; f->trueColour = a[3];
+  /* flags the way applications and the library write them: TRUE (-1) / FALSE */
+  f->bitsPerPixel = a[0]; f->depth = a[1]; f->bigEndian = a[2] ? TRUE : FALSE; f->trueColour = a[3] ? TRUE : FALSE;
   f->redMax = a[4]; f->greenMax = a[5]; f->blueMax = a[6]; f->redShift = a[7]; f->greenShift = a[8]; f->blueShift = a[9];
 }
 
@@ -108,28 +115,8 @@ static void __attribute__((noinline)) poison_stack(void) {
   for (i = 0; i < sizeof a; i++) a[i] = 0x5a;
 }
 
-static void do_setup(void) {
-  rfbBool ok;
-  setup_ok = 0;
-  if (!cl || cl->sock < 0) new_client();
-  screen->serverFormat = sf;
-  screen->colourMap.is16 = cm_is16; screen->colourMap.count = cm_count;
-  if (cm_is16) screen->colourMap.data.shorts = cm_shorts; else screen->colourMap.data.bytes = cm_bytes;
-  cl->format = cf;
-  rfbEconomicTranslate = econ;
-  pbuf.n = pbuf.rd = 0;
-  armed = 1;
-  if (sigsetjmp(jb, 1)) {
-    printf("setup crash\n");
-    return;
-  }
-  poison_stack();
-  ok = rfbSetTranslateFunction(cl);
-  armed = 0;
-  vs_drain(peer, &pbuf);
-  if (!ok) { printf("setup ok=0\n"); new_client(); return; }
-  setup_ok = 1;
-  printf("setup ok=1 fn=%s cf=%d %d %d %d %d %d %d %d %d %d msg=", cl->translateFn == rfbTranslateNone ? "none" : "table",
+static void print_setup_obs(const char *tag) {
+  printf("%s ok=1 fn=%s cf=%d %d %d %d %d %d %d %d %d %d msg=", tag, cl->translateFn == rfbTranslateNone ? "none" : "table",
          cl->format.bitsPerPixel, cl->format.depth, cl->format.bigEndian ? 1 : 0, cl->format.trueColour ? 1 : 0,
          cl->format.redMax, cl->format.greenMax, cl->format.blueMax, cl->format.redShift, cl->format.greenShift, cl->format.blueShift);
   if (pbuf.n) puthex(pbuf.p, pbuf.n); else putchar('-');
@@ -138,6 +125,61 @@ static void do_setup(void) {
     size_t n = malloc_usable_size(cl->translateLookupTable);
     printf(" tbl=%zu tsum=%016llx\n", n, (unsigned long long)fnv64((unsigned char *)cl->translateLookupTable, n));
   }
+}
+
+/* wire = 0: cl->format written directly, rfbSetTranslateFunction called (as the library does after ClientInit);
+ * wire = 1: a real SetPixelFormat message with the raw flag bytes be_byte / tc_byte is sent by the peer and
+ * processed by rfbProcessClientMessage */
+static void do_setup(int wire, int be_byte, int tc_byte) {
+  rfbBool ok;
+  setup_ok = 0;
+  if (!cl || cl->sock < 0) new_client();
+  screen->serverFormat = sf;
+  screen->colourMap.is16 = cm_is16; screen->colourMap.count = cm_count;
+  if (cm_is16) screen->colourMap.data.shorts = cm_shorts; else screen->colourMap.data.bytes = cm_bytes;
+  rfbEconomicTranslate = econ;
+  pbuf.n = pbuf.rd = 0;
+  if (wire) {
+    unsigned char m[20]; memset(m, 0, sizeof m);
+    m[0] = 0; m[4] = cf.bitsPerPixel; m[5] = cf.depth; m[6] = (unsigned char)be_byte; m[7] = (unsigned char)tc_byte;
+    vs_put16(m + 8, cf.redMax); vs_put16(m + 10, cf.greenMax); vs_put16(m + 12, cf.blueMax);
+    m[14] = cf.redShift; m[15] = cf.greenShift; m[16] = cf.blueShift;
+    vs_write(peer, m, 20);
+  } else cl->format = cf;
+  armed = 1;
+  if (sigsetjmp(jb, 1)) {
+    printf("setup crash\n");
+    if (wire) new_client();            /* the message may be half consumed */
+    return;
+  }
+  poison_stack();
+  if (wire) { rfbProcessClientMessage(cl); ok = (cl->sock >= 0); }
+  else ok = rfbSetTranslateFunction(cl);
+  armed = 0;
+  vs_drain(peer, &pbuf);
+  if (!ok) { printf("setup ok=0\n"); new_client(); return; }
+  setup_ok = 1;
+  print_setup_obs("setup");
+}
+
+/* the application replaces the framebuffer: rfbNewFramebuffer(screen, fb, 4, 4, bps, spp, bytespp) */
+static void do_newfb(int bps, int spp, int bytespp) {
+  char *fb;
+  if (!setup_ok) { printf("newfb nosetup\n"); return; }
+  if (bytespp < 1 || bytespp > 4) { printf("newfb badarg\n"); return; }
+  fb = calloc(16, (size_t)bytespp);
+  pbuf.n = pbuf.rd = 0;
+  armed = 1;
+  if (sigsetjmp(jb, 1)) { printf("newfb crash\n"); setup_ok = 0; return; }
+  poison_stack();
+  rfbNewFramebuffer(screen, fb, 4, 4, bps, spp, bytespp);
+  armed = 0;
+  vs_drain(peer, &pbuf);
+  sf = screen->serverFormat; cm_is16 = 0; cm_count = 0;
+  printf("newfb sf=%d %d %d %d %d %d %d %d %d %d ", sf.bitsPerPixel, sf.depth, sf.bigEndian ? 1 : 0, sf.trueColour ? 1 : 0,
+         sf.redMax, sf.greenMax, sf.blueMax, sf.redShift, sf.greenShift, sf.blueShift);
+  if (cl->sock < 0) { printf("ok=0\n"); setup_ok = 0; new_client(); return; }
+  print_setup_obs("client");
 }
 
 /* run the translate function on an input of L bytes ending at the guard; returns 0 ok, 1 read fault
@@ -216,7 +258,9 @@ int main(void) {
         size_t tn = malloc_usable_size(cl->translateLookupTable);
         printf(" tbl=%zu tsum=%016llx\n", tn, (unsigned long long)fnv64((unsigned char *)cl->translateLookupTable, tn));
       }
-    } else if (!strcmp(op, "setup")) do_setup();
+    } else if (!strcmp(op, "setup")) do_setup(0, 0, 0);
+    else if (!strcmp(op, "setupmsg")) { int b = 0, t = 0; sscanf(line + off, "%d %d", &b, &t); do_setup(1, b, t); }
+    else if (!strcmp(op, "newfb")) { int a = 8, b = 3, c = 4; sscanf(line + off, "%d %d %d", &a, &b, &c); do_newfb(a, b, c); }
     else if (!strcmp(op, "xlate") || !strcmp(op, "extent")) {
       int stride, w, h, n = 0; size_t outlen;
       int isx = !strcmp(op, "xlate");
